@@ -98,6 +98,25 @@ def execute(plan):
                           "%s(M=%d)%s: %d of %d ordered nearest-neighbour pairs carry labels differing in more than one bit (e.g. labels %d and %d differ in %d bits)" % (
                               cls, M, "" if last_mut is None else " after " + last_mut, bad, pairs, ex[0], ex[1], ex[2]),
                           {"class": fam, "M": M, "last_mutator": last_mut}, cap=8)
+        if not bad and M <= 256:
+            # the same statement, operationally: label i is sent, the channel moves it onto a nearest neighbour j, the
+            # receiver decides; the decision must cost exactly one bit.  (Also the first use of the demodulator, so that a
+            # later change of the constellation meets whatever the demodulator keeps.)
+            sym = np.array(mod.symbols, dtype=complex)
+            dec = np.asarray(mod.demodulate(sym.copy())).astype(np.int64).ravel()
+            d = np.abs(sym[:, None] - sym[None, :])
+            np.fill_diagonal(d, np.inf)
+            ii, jj = np.nonzero(d <= d.min() * (1 + 1e-9))
+            cost = np.array([bin(int(a) ^ int(dec[b])).count("1") for a, b in zip(ii, jj)])
+            nb = int(np.count_nonzero(cost != 1))
+            bump(res["probes"], "nearest_neighbour_errors_decided")
+            if dec.shape != (M,) or nb:
+                k0 = int(np.nonzero(cost != 1)[0][0]) if nb else 0
+                add_violation(res, pid + ".gray_adjacent", step,
+                              "%s(M=%d)%s: the table is Gray, but %d of %d nearest-neighbour errors cost a number of bits other than one when decided by "
+                              "demodulate() (e.g. label %d received at the point of label %d is decided as %d)" % (
+                                  cls, M, "" if last_mut is None else " after " + last_mut, nb, ii.size, int(ii[k0]), int(jj[k0]), int(dec[jj[k0]])),
+                              {"class": fam, "M": M, "last_mutator": last_mut, "via": "demodulate"}, cap=8)
         if len(mod.symbols) != M:
             add_violation(res, pid + ".table_size", step, "constellation has %d points, M=%d" % (len(mod.symbols), M), {"class": fam})
     try:
